@@ -341,7 +341,8 @@ theorem stageAttrs_ok {a : List Name} {api api' : Api} (h : stageAttrs a api = .
     (∀ n ∈ wantedAttrs a api.schema, n ∈ api.schema) ∧
     api' = { namespaces := api.namespaces.map (Namespace.restrict (wantedAttrs a api.schema))
              schema := api.schema.filter (fun n => n ∈ wantedAttrs a api.schema)
-             schemaByName := api.schemaByName.filter (fun n => n ∈ wantedAttrs a api.schema) } := by
+             schemaByName := api.schemaByName.filter (fun n => n ∈ wantedAttrs a api.schema)
+             schemaInherited := api.schemaInherited } := by
   unfold stageAttrs at h
   simp only at h
   split at h
@@ -363,7 +364,8 @@ theorem prune_ok {o : Opts} {api api' : Api} (h : prune o api = .ok api') :
       (∀ n ∈ wantedAttrs o.attributes api.schema, n ∈ api.schema) ∧
       api' = { namespaces := api.namespaces.map (nsPipeline o f (wantedAttrs o.attributes api.schema))
                schema := api.schema.filter (fun n => n ∈ wantedAttrs o.attributes api.schema)
-               schemaByName := api.schemaByName.filter (fun n => n ∈ wantedAttrs o.attributes api.schema) } := by
+               schemaByName := api.schemaByName.filter (fun n => n ∈ wantedAttrs o.attributes api.schema)
+               schemaInherited := api.schemaInherited } := by
   unfold prune at h
   cases hp : stageParse o with
   | error e => simp [hp, bind, Except.bind] at h
@@ -382,6 +384,8 @@ theorem prune_ok {o : Opts} {api api' : Api} (h : prune o api = .ok api') :
           cases f <;> simp [stageFilter, hb2, hw2]
         have hschema2 : (stageFilter f api2).schemaByName = api.schemaByName := by
           cases f <;> simp [stageFilter, hb2, hw2]
+        have hschema3 : (stageFilter f api2).schemaInherited = api.schemaInherited := by
+          cases f <;> simp [stageFilter, hb2, hw2]
         refine ⟨f, rfl, hw1, ?_, ?_, ?_⟩
         · intro n hn
           have := hb1 n hn
@@ -389,7 +393,7 @@ theorem prune_ok {o : Opts} {api api' : Api} (h : prune o api = .ok api') :
           rw [hasNamespace_map api _ (fun ns => by split <;> rfl)] at this
           exact this
         · simpa [hschema] using ha1
-        · rw [ha2, hschema, hschema2]
+        · rw [ha2, hschema, hschema2, hschema3]
           congr 1
           cases f with
           | none =>
